@@ -86,6 +86,18 @@ try:
         try:
             prev = json.load(open(dst + "/meta.json"))
             meta["history"] = prev.get("history", [])
+            if fast:
+                # the confirmation is not repeated: keep what the confirming evaluation recorded, and accumulate the check results
+                for k in ("suite_output", "demo_output_with", "demo_passes_without", "demo_fails_with", "existing_suite_passes", "applies",
+                          "final_regression", "checks_earlier_evaluation"):
+                    if k in prev:
+                        meta[k] = prev[k]
+                merged = dict(prev.get("checks_earlier_evaluation", {}))
+                merged.update(prev.get("checks", {}))
+                merged.update(meta.get("checks", {}))
+                meta["checks"] = merged
+                meta.pop("checks_earlier_evaluation", None)
+                meta["caught_by"] = sorted(p for p, d in merged.items() if d.get("rc") == 1)
             if prev.get("confirmed") and not prev.get("caught_by_target") and "checks" in prev:
                 meta["history"].append("earlier run: missed by %s (caught by %s)%s" % (
                     target, ", ".join(prev.get("caught_by", [])) or "none", (": " + os.environ["NOTE"]) if os.environ.get("NOTE") else ""))
